@@ -28,6 +28,9 @@ def run(ctx):
     ctx.rule("R8", "what a local histogram flushes is one batch of its own observations (shared with C12.L5): flush clears all of count, sum and counts; a clone (start_timer clones) "
                    "starts with all three cleared; otherwise a snapshot shows bucket counts that no set of observations explains")
     ctx.run_rule("R8", lambda c: C06._as(c, "R8", lambda s_: C12.rule_local_histogram(s_, f, "L5")))
+    ctx.rule("R10", "every observation, direct or batched in a local histogram, is counted in the first bucket whose bound is not below it (shared with C08.R4): otherwise "
+                    "a bucket's cumulative count is not the number of values of S up to its bound")
+    ctx.run_rule("R10", lambda c: C06._as(c, "R10", lambda s_: C08.rule_R4(s_, f)))
     if ctx.tier == "thorough":
         for cfgname in ("plain", "nightlyproc"):
             g = ctx.facts(cfgname)
